@@ -26,6 +26,10 @@ pub struct Scenario {
     /// by many deleted versions (1 = leave them alone).
     #[serde(default = "one")]
     pub id_spread: u32,
+    /// After the prefix, a backup is killed just before (1) or while (2: zero-length file)
+    /// writing its BANDHEAD, so the newest band directory has no readable head.
+    #[serde(default)]
+    pub headless_band: u8,
 }
 
 fn one() -> u32 {
@@ -66,8 +70,9 @@ pub fn scenario_strategy(interrupts_in_prefix: bool, deletes_in_prefix: bool) ->
         prop::collection::vec(edit_strategy(small_cfg()), 0..6),
         small_opts(),
         prop_oneof![8 => Just(1u32), 1 => Just(20u32), 1 => Just(3400u32)],
+        prop_oneof![8 => Just(0u8), 2 => Just(1u8), 1 => Just(2u8)],
     )
-        .prop_map(|(g, first, mut prefix, edits, opts, id_spread)| {
+        .prop_map(|(g, first, mut prefix, edits, opts, id_spread, headless_band)| {
             if let Some(o) = first {
                 prefix.insert(0, Op::Backup(o));
             }
@@ -77,6 +82,7 @@ pub fn scenario_strategy(interrupts_in_prefix: bool, deletes_in_prefix: bool) ->
                 edits,
                 opts,
                 id_spread,
+                headless_band,
             }
         })
         .boxed()
@@ -113,6 +119,9 @@ impl Base {
         let mut world = World::new(scratch, &sc.initial);
         for op in &sc.prefix {
             let _ = world.apply(op);
+        }
+        if sc.headless_band > 0 {
+            let _ = world.backup_killed_at_head(sc.opts, sc.headless_band == 2);
         }
         if sc.id_spread > 1 {
             let ids: Vec<u32> = format_scan_ids(&world.arch);
